@@ -32,6 +32,49 @@ func (p c17Patch) lib() patch.Patch {
 	return m
 }
 
+// ctor builds the same patch through the library's constructor for its action (nil, nil when there is none).
+func (p c17Patch) ctor() (patch.Patch, error) {
+	m, _ := p.plain().(map[string]interface{})
+	arg := func(k string) string { return string(mustJSON(m[k])) }
+	switch m["action"] {
+	case "add-public-keys":
+		if _, ok := m["publicKeys"]; ok {
+			return patch.NewAddPublicKeysPatch(arg("publicKeys"))
+		}
+	case "remove-public-keys":
+		return patch.NewRemovePublicKeysPatch(arg("ids"))
+	case "add-services":
+		return patch.NewAddServiceEndpointsPatch(arg("services"))
+	case "remove-services":
+		return patch.NewRemoveServiceEndpointsPatch(arg("ids"))
+	case "add-also-known-as":
+		return patch.NewAddAlsoKnownAs(arg("uris"))
+	case "remove-also-known-as":
+		return patch.NewRemoveAlsoKnownAs(arg("uris"))
+	case "replace":
+		return patch.NewReplacePatch(arg("document"))
+	case "ietf-json-patch":
+		return patch.NewJSONPatch(arg("patches"))
+	}
+	return nil, nil
+}
+
+// viaBytes builds the patch with patch.FromBytes and serializes / parses it once more.
+func (p c17Patch) viaBytes() (patch.Patch, error) {
+	if strings.HasPrefix(p.name, "FAIL-unknown") || strings.HasPrefix(p.name, "FAIL-missing") {
+		return nil, nil
+	}
+	q, err := patch.FromBytes([]byte(p.js))
+	if err != nil {
+		return nil, err
+	}
+	b, err := q.Bytes()
+	if err != nil {
+		return nil, err
+	}
+	return patch.FromBytes(b)
+}
+
 func (p c17Patch) plain() interface{} {
 	var v interface{}
 	_ = json.Unmarshal([]byte(p.js), &v)
@@ -70,7 +113,7 @@ func c17Alphabet() []c17Patch {
 	return []c17Patch{
 		{"+k1", addK(k1)}, {"+k1*", addK(k1b)}, {"+k1-", addK(k1c)}, {"+k2", addK(k2)}, {"+{k1,k2}", addK(k1, k2)}, {"+{k2,k1*}", addK(k2, k1b)},
 		{"-k1", rmK("k1")}, {"-k9", rmK("k9")}, {"-{k1,k2}", rmK("k1", "k2")},
-		{"+s1", addS(s1)}, {"+s1*", addS(s1b)}, {"+s1-", addS(s1c)}, {"+s2", addS(s2)}, {"+{s1,s2}", addS(s1, s2)},
+		{"+s1", addS(s1)}, {"+s1*", addS(s1b)}, {"+s1-", addS(s1c)}, {"+s2", addS(s2)}, {"+{s1,s2}", addS(s1, s2)}, {"+{s2,s1*}", addS(s2, s1b)},
 		{"-s1", rmS("s1")}, {"-s9", rmS("s9")}, {"-{s1,s2}", rmS("s1", "s2")},
 		{"+a1", addA("https://a1.example")}, {"+a2", addA("https://a2.example")}, {"+{a1,a2}", addA("https://a1.example", "https://a2.example")},
 		{"-a1", rmA("https://a1.example")}, {"-a9", rmA("https://a9.example")},
@@ -87,7 +130,7 @@ func c17Alphabet() []c17Patch {
 
 func c17(r *hx.Run) {
 	fx.Quiet()
-	r.Rule = "breadth-first search from the empty document: a transition applies one patch of a 31-patch alphabet (add/replace-in-place/remove of 2 keys, 2 services, 2 aliases, replace, JSON patches, 4 failing patches) through the real DocumentComposer; states are canonical documents, explored to depth 3 (thorough 4); in every state every patch list of length <=2 (thorough 3) is applied and checked for purity (input equals a snapshot, also after the result is mutated), determinism, atomicity (failing member => (nil, err); otherwise equal to the fold of singletons) and equality with the ordered-map reference ref/doc; every reachable document with non-empty sections must survive PatchesFromDocument -> ApplyPatches({}); the same round trip for ~330 well-formed documents carrying every content class (format verbs such as %s, quotes, backslashes, control / non-ASCII / astral characters, numbers, null, nested containers) as member value, member name, nested value, service / key member, endpoint and alias. Non-trivial: distinct (state, list) pairs whose reference result differs from the input state or fails."
+	r.Rule = "breadth-first search from the empty document: a transition applies one patch of a 32-patch alphabet (add/replace-in-place/remove of 2 keys, 2 services, 2 aliases, replace, JSON patches, 4 failing patches) through the real DocumentComposer; states are canonical documents, explored to depth 3 (thorough 4); in every state every patch list of length <=2 (thorough 3) is applied and checked for purity (input equals a snapshot, also after the result is mutated), determinism, atomicity (failing member => (nil, err); otherwise equal to the fold of singletons) and equality with the ordered-map reference ref/doc; every reachable document with non-empty sections must survive PatchesFromDocument -> ApplyPatches({}); documents with 1..9 entries per section x adds mixing new and existing ids in every order / removals / pairs (slice-growth boundaries) against ref/doc; every single patch is also built through the library's constructor for its action (patch.New*Patch) and through FromBytes/Bytes and must have the same effect in every state; the same round trip for ~330 well-formed documents carrying every content class (format verbs such as %s, quotes, backslashes, control / non-ASCII / astral characters, numbers, null, nested containers) as member value, member name, nested value, service / key member, endpoint and alias. Non-trivial: distinct (state, list) pairs whose reference result differs from the input state or fails."
 	alpha := c17Alphabet()
 	composer := doccomposer.New()
 	maxDepth := 3
@@ -196,6 +239,26 @@ func c17(r *hx.Run) {
 			if string(mustJSON(in)) != snapshot {
 				fail("input-modified", "input document changed to "+hx.Trunc(string(mustJSON(in)), 300))
 			}
+			// the same patch built through the library's constructor / FromBytes must have the same effect
+			if len(ps) == 1 {
+				for route, build := range map[string]func() (patch.Patch, error){"constructor": ps[0].ctor, "FromBytes": ps[0].viaBytes} {
+					lp, berr := build()
+					if lp == nil && berr == nil {
+						continue
+					}
+					if berr != nil {
+						fail("patch-"+route+"-refuses:"+ps[0].name, berr.Error())
+						continue
+					}
+					in2 := document.Document(doc.Clone(st.d).(doc.Doc))
+					out2, err2 := composer.ApplyPatches(in2, []patch.Patch{lp})
+					r.Eval()
+					if (err2 == nil) != (err == nil) || (err == nil && doc.Norm(doc.Doc(out2)) != doc.Norm(doc.Doc(out))) {
+						fail("patch-"+route+"-differs:"+ps[0].name, fmt.Sprintf("patch built through the %s gives %s (err=%v), the same patch parsed from JSON gives %s (err=%v)", route,
+							hx.Trunc(doc.Norm(doc.Doc(out2)), 300), err2, hx.Trunc(doc.Norm(doc.Doc(out)), 300), err))
+					}
+				}
+			}
 			// reference
 			var plainPatches []interface{}
 			for _, p := range ps {
@@ -269,6 +332,8 @@ func c17(r *hx.Run) {
 			r.Sample(map[string]interface{}{"state_path": st.path, "document": hx.Trunc(snapshot, 200), "lists_applied": len(lists)})
 		}
 	})
+	// larger sections: 1..9 entries per section (slice growth boundaries), adds mixing new and existing ids in both orders
+	c17Sized(r, composer)
 	// round trip over content classes: every string / value class at every position of a well-formed document
 	c17ContentRoundTrips(r, composer)
 	r.Extra["distinct_result_documents"] = len(outcomes)
@@ -393,4 +458,119 @@ func c17ContentRoundTrips(r *hx.Run, composer *doccomposer.DocumentComposer) {
 		c17RoundTrip(r, composer, vs[i].d, "content|"+vs[i].id)
 	})
 	r.Extra["content_round_trips"] = len(vs)
+}
+
+// c17Sized applies add / remove patches to documents whose sections hold 1..9 entries and compares with ref/doc.
+func c17Sized(r *hx.Run, composer *doccomposer.DocumentComposer) {
+	key := func(id, seed string, purposes ...interface{}) map[string]interface{} {
+		return fx.KeyEntry(id, fx.NewKey(fx.P256, "c17/sized/"+seed), purposes)
+	}
+	svc := func(id, typ string) map[string]interface{} {
+		return map[string]interface{}{"id": id, "type": typ, "serviceEndpoint": "https://example.com/" + id + "/" + typ}
+	}
+	type job struct {
+		id      string
+		d       doc.Doc
+		patches []interface{}
+	}
+	var jobs []job
+	for n := 1; n <= 9; n++ {
+		d := doc.Doc{}
+		var ks, ss, as []interface{}
+		for i := 0; i < n; i++ {
+			ks = append(ks, key(fmt.Sprintf("k%d", i), "old", "authentication"))
+			ss = append(ss, svc(fmt.Sprintf("s%d", i), "old"))
+			as = append(as, fmt.Sprintf("https://a%d.example", i))
+		}
+		d["publicKey"], d["service"], d["alsoKnownAs"] = ks, ss, as
+		addP := func(sec string, entries ...interface{}) interface{} {
+			switch sec {
+			case "k":
+				return map[string]interface{}{"action": "add-public-keys", "publicKeys": entries}
+			case "s":
+				return map[string]interface{}{"action": "add-services", "services": entries}
+			}
+			return map[string]interface{}{"action": "add-also-known-as", "uris": entries}
+		}
+		rmP := func(sec string, ids ...interface{}) interface{} {
+			switch sec {
+			case "k":
+				return map[string]interface{}{"action": "remove-public-keys", "ids": ids}
+			case "s":
+				return map[string]interface{}{"action": "remove-services", "ids": ids}
+			}
+			return map[string]interface{}{"action": "remove-also-known-as", "uris": ids}
+		}
+		for _, sec := range []string{"k", "s", "a"} {
+			mk := func(i int, changed bool) (entry interface{}, id interface{}) {
+				switch sec {
+				case "k":
+					if i < 0 {
+						return key(fmt.Sprintf("new%d", -i), "new"), fmt.Sprintf("new%d", -i)
+					}
+					if changed {
+						return key(fmt.Sprintf("k%d", i), "changed", "assertionMethod"), fmt.Sprintf("k%d", i)
+					}
+					return key(fmt.Sprintf("k%d", i), "old", "authentication"), fmt.Sprintf("k%d", i)
+				case "s":
+					if i < 0 {
+						return svc(fmt.Sprintf("new%d", -i), "new"), fmt.Sprintf("new%d", -i)
+					}
+					if changed {
+						return svc(fmt.Sprintf("s%d", i), "changed"), fmt.Sprintf("s%d", i)
+					}
+					return svc(fmt.Sprintf("s%d", i), "old"), fmt.Sprintf("s%d", i)
+				}
+				if i < 0 {
+					return fmt.Sprintf("https://new%d.example", -i), fmt.Sprintf("https://new%d.example", -i)
+				}
+				return fmt.Sprintf("https://a%d.example", i), fmt.Sprintf("https://a%d.example", i)
+			}
+			n1, _ := mk(-1, false)
+			n2, _ := mk(-2, false)
+			for i := 0; i < n; i++ {
+				ei, idi := mk(i, true)
+				tag := fmt.Sprintf("sized|n=%d|%s|i=%d|", n, sec, i)
+				jobs = append(jobs,
+					job{tag + "new,existing", d, []interface{}{addP(sec, n1, ei)}},
+					job{tag + "existing,new", d, []interface{}{addP(sec, ei, n1)}},
+					job{tag + "new,new,existing", d, []interface{}{addP(sec, n1, n2, ei)}},
+					job{tag + "new,existing,new", d, []interface{}{addP(sec, n1, ei, n2)}},
+					job{tag + "existing-only", d, []interface{}{addP(sec, ei)}},
+					job{tag + "remove", d, []interface{}{rmP(sec, idi)}},
+					job{tag + "remove,add-new", d, []interface{}{rmP(sec, idi), addP(sec, n1)}},
+					job{tag + "add-new,remove", d, []interface{}{addP(sec, n1), rmP(sec, idi)}},
+					job{tag + "remove,re-add", d, []interface{}{rmP(sec, idi), addP(sec, ei)}})
+				for j := 0; j < n; j++ {
+					if j != i {
+						ej, idj := mk(j, true)
+						jobs = append(jobs, job{fmt.Sprintf("%sexisting-pair|j=%d", tag, j), d, []interface{}{addP(sec, ei, n1, ej)}},
+							job{fmt.Sprintf("%sremove-pair|j=%d", tag, j), d, []interface{}{rmP(sec, idi, idj)}})
+					}
+				}
+			}
+		}
+	}
+	hx.ParallelFor(len(jobs), func(ji int) {
+		j := jobs[ji]
+		if !r.Want(j.id) {
+			return
+		}
+		snapshot := string(mustJSON(j.d))
+		in := document.Document(doc.Clone(j.d).(doc.Doc))
+		out, err := composer.ApplyPatches(in, toPatches(j.patches))
+		r.Eval()
+		r.State()
+		r.Trans(1)
+		r.Nontrivial(j.id)
+		want, werr := doc.ApplyAll(j.d, j.patches)
+		if string(mustJSON(in)) != snapshot {
+			r.Violation("input-modified:sized", j.id, "input document changed", nil)
+		}
+		if (err == nil) != (werr == nil) || (err == nil && doc.Norm(doc.Doc(out)) != doc.Norm(want)) {
+			r.Violation("ordered-set-semantics:sized", j.id, fmt.Sprintf("patches %s on a document with that many entries\n  impl: %s (err=%v)\n  ref : %s (err=%v)", hx.Trunc(string(mustJSON(j.patches)), 300),
+				hx.Trunc(doc.Norm(doc.Doc(out)), 500), err, hx.Trunc(doc.Norm(want), 500), werr), nil)
+		}
+	})
+	r.Extra["sized_cases"] = len(jobs)
 }
